@@ -359,3 +359,25 @@ ENGINES = [
 
 _PENDING = "check being integrated (built by a builder agent, not yet registered); the technique applies, see DESIGN.md section 5"
 NOT_APPLICABLE = {f"C{i:02d}": _PENDING for i in range(1, 21)}
+
+# Addenda to the rule texts: parts and scenarios added after the texts above were written.
+_ADD = {
+    "C02": " Part lookalikes: the same sweep with peers whose IP text and port digits concatenate alike (10.1.0.2:25 / 10.1.0.22:5). Part sched (Engine B): a peer datagram / Refresh 0 of a second client vs the "
+           "permission timer; a Refresh of an entry at the instant its timer fires (both directions); a peer datagram (UDP allocation) or peer connection (TCP allocation) during the slow Deleted callback of a "
+           "neighbouring permission / channel whose own deadline has passed: nothing is relayed or announced for the run-out entry.",
+    "C03": " Every truncation of a fresh nonce text is refused. Part two-servers: two turn.Server instances of one process, a nonce minted by one presented to the other is refused (438), each accepts its own; "
+           "states own-anon (the auth handler reports an empty user id) and other-user-case (accounts differing in letter case only).",
+    "C09": " Parts client-states / client-lifetimes / client-sched: the server's inbound messages in every state of the client's relayed socket (open, bound, closed, closed twice, re-allocated, TCP listener closed), "
+           "Allocate success responses granting LIFETIME {0,1,2,3,600,2^32-1}, and (Engine B, K13) a ConnectionAttempt racing TCPAllocation.Close: the client survives and completes a transaction afterwards.",
+    "C10": " Empty reads are also combined with byte-at-a-time delivery (more than 100 empty reads within one frame): same frames, no error.",
+    "C13": " The harness application re-uses one address object for its WriteTo calls (alternating the 4- and 16-byte IP forms) and overwrites every address ReadFrom hands it: bindings, refreshes and later reads are unaffected.",
+    "C15": " Also: a request arriving during a teardown whose Deleted callback is slow (timeouts beyond the horizon: nothing installed on the dying allocation survives it); Server.Close racing a Refresh of a stream client "
+           "(no timer re-armed on the closed allocation); a Connect dial completing at the instant of Server.Close (IdleTies: peer connection closed, no bind timer left); in part vtx Server.Close with every UDP relay socket "
+           "refusing its first Close: the server still tries to close each of them.",
+    "C16": " Also (Engine B): an inbound peer connection accepted at the relayed address while the client deletes the allocation and allocates again on the same 5-tuple: an id announced late is not bindable under the second allocation.",
+    "C17": " Handlers are also built at a fractional instant of the clock; a REST-format credential is presented to the plain handler (and the reverse) and must not authenticate; granted transaction ids are replayed and forged end to end.",
+    "C18": " S16: the Connect dial of S15 completes at the very instant Server.Close is called (scheduler option IdleTies: both sleepers of that instant are enabled together).",
+    "C20": " Listening addresses are given as IP literals and as host names (simnet resolver: relay.test, relay6.test).",
+}
+for _k, _v in _ADD.items():
+    CHECKS[_k]["rule"] += _v
